@@ -257,9 +257,12 @@ func (c *cubicSender) maybeIncreaseCwnd(
 			c.numAckedPackets = 0
 		}
 	} else {
+		// An acknowledgement never shrinks the window: the cubic target can be below the current
+		// window (after a long idle period the cubic term overflows, and a lower min RTT or an
+		// MTU re-base moves the target back in time).
 		c.congestionWindow = min(
 			c.maxCongestionWindow(),
-			c.cubic.CongestionWindowAfterAck(ackedBytes, c.congestionWindow, c.rttStats.MinRTT(), eventTime),
+			max(c.congestionWindow, c.cubic.CongestionWindowAfterAck(ackedBytes, c.congestionWindow, c.rttStats.MinRTT(), eventTime)),
 		)
 	}
 }
